@@ -9,10 +9,10 @@
      Passes.assemble_items.  IShort/IPack carry [FInt v]: the value resolve_immediates has computed.
    * le_of / be_of (byte i of u is (u / 256^i) mod 256), the tables of directives, widths and format codes,
      utf8_encode / utf8_decode are the SPEC (Spec/Data.v, Spec/Utf8.v), written from the documentation. *)
-From Coq Require Import ZArith List Bool String.
+From Coq Require Import ZArith List Bool String Lia.
 From BB Require Import Base.PyBase Model.Items Spec.Utf8 Spec.Data.
 From BB Require Import Proofs.DataInt Proofs.DataUtf8 Proofs.DataSizes Proofs.DataMain.
-From BB Require Import Model.Passes Gen.Sizes Proofs.SizesTable Model.Lexer Model.Parser Proofs.StringLine Proofs.EndToEnd.
+From BB Require Import Model.Passes Gen.Sizes Proofs.SizesTable Model.Lexer Model.Parser Proofs.StringLine Proofs.EndToEnd Proofs.LexFront Proofs.IntSpell Proofs.NumTok.
 Import ListNotations.
 Open Scope Z_scope.
 
@@ -37,6 +37,22 @@ Theorem C10_int_line : forall name w, In (name, w) shorthand_table -> forall (l 
     else Passes.Fail (PAsm l).
 Proof. intros name w H l tok v Hp. exact (EndToEnd.short_line_end_to_end l name w tok v H Hp). Qed.
 Print Assumptions C10_int_line.
+
+(* ... with the literal given as TEXT: the decimal or the hexadecimal spelling of any value below 2^64 (text -> number for the
+   expression model: Proofs/NumTok.v over Proofs/IntSpell.v) *)
+Theorem C10_int_line_text : forall name w, In (name, w) shorthand_table -> forall (l : line) (v : Z), 0 <= v < 2 ^ 64 ->
+  forall tok, tok = dec_of_Z v \/ tok = LexFront.hex_of v ->
+  exists it, Parser.parse_item l [name; tok] = Parser.FOk it /\
+    Passes.assemble_items [(l, it)] [] [] false =
+    if (- 2 ^ (8 * w - 1) <=? v) && (v <? 2 ^ (8 * w))
+    then Passes.Done {| Passes.r_chunks := [(l, Passes.CBytes (le_of (Z.to_nat w) (v mod 2 ^ (8 * w))))]; Passes.r_consts := []; Passes.r_labels := [] |}
+    else Passes.Fail (PAsm l).
+Proof.
+  intros name w H l v Hv tok [-> | ->]; apply (EndToEnd.short_line_end_to_end l name w _ v H).
+  - apply NumTok.dec_immediate. pose proof IntSpell.lt_2_64_dec. lia.
+  - apply NumTok.hex_immediate. pose proof IntSpell.lt_2_64_hex. lia.
+Qed.
+Print Assumptions C10_int_line_text.
 
 (* bytes / shorts / ints / longs / longlongs with any number of elements, each written as any token that
    int(tok, 0) reads as v (hypothesis [parsed]; satisfiable: Example C10_seq_example): accepted iff EVERY
